@@ -5,7 +5,8 @@
    constraint matrix and right-hand side built by build_constraints_quicker (duplicates summed),
    `objective I` = build_objective, `get_routes I x` = get_routes.  A vector x is a list of integers
    of length num_variables; `selected I x` are the tuples whose entry is non-zero, in index order. *)
-From VQ Require Import Base Vrptw Vrptw_facts Arc Arc_facts.
+From Coq Require Import Sorting.Permutation.
+From VQ Require Import Base Vrptw Vrptw_facts Arc Arc_facts Arc_routes Arc_complete.
 
 (* 1. the variables are exactly the admissible moves (shared with C18) *)
 Theorem C05_vars_admissible :
@@ -57,6 +58,165 @@ Theorem C05_objective :
 Proof. exact objective_selected. Qed.
 Print Assumptions C05_objective.
 
+(* 3. soundness.  Hypotheses: the graph is one the VRPTW class can reach (Vrptw_facts.Inv, C15), grid
+   values pairwise distinct, customer-to-customer travel times positive (pos_cc).
+     sroute r  :=  r is a non-empty chain of moves (dest of each = orig of the next, node AND time), its
+                   first move leaves node 0, its last move ends at node 0, no earlier move ends at node 0;
+     valid_move := the admissibility predicate of C05_vars_admissible (existing arc, grid times inside the
+                   windows, arrival >= departure + travel time).
+   If A x = b then the selected moves are, up to order, the concatenation of such routes, and every
+   customer is entered exactly once overall. *)
+Theorem C05_sound :
+  forall I x, Inv (ig I) -> NoDup (igrid I) -> pos_cc I ->
+    length x = num_variables I -> binary x -> Ax I x = rhs I ->
+    exists routes : list (list var),
+      Permutation (selected I x) (concat routes) /\ Forall sroute routes /\
+      Forall (valid_move I) (concat routes) /\
+      forall j, (1 <= j < length (nodes (ig I)))%nat -> cnt (into_node j) (concat routes) = 1%nat.
+Proof.
+  intros I x HI Hg Hpos Hl Hb HA. apply sound_of_local; auto using Inv_wf.
+  apply local_iff; auto.
+Qed.
+Print Assumptions C05_sound.
+
+(* ... and conversely (no positivity needed): a vector whose selected moves split into depot-to-depot
+   chains (`walk`: first move leaves node 0, last move ends at node 0; sroute implies walk) that enter
+   every customer exactly once satisfies the constraints. *)
+Theorem C05_routes_feasible :
+  forall I x routes, NoDup (igrid I) -> length x = num_variables I -> binary x ->
+    Permutation (selected I x) (concat routes) -> Forall walk routes ->
+    (forall j, (1 <= j < length (nodes (ig I)))%nat -> cnt (into_node j) (concat routes) = 1%nat) ->
+    Ax I x = rhs I.
+Proof.
+  intros I x routes Hg Hl Hb Hp Hw Hc. apply local_iff; auto. eapply local_of_walks; eauto.
+Qed.
+Print Assumptions C05_routes_feasible.
+
+Theorem C05_sroute_is_walk : forall r, sroute r -> walk r.
+Proof. exact sroute_walk. Qed.
+Print Assumptions C05_sroute_is_walk.
+
+(* 5. decoding.  With at least one customer, get_routes succeeds on every feasible binary vector and
+   returns the (node, time) lists  route_of ms = origins of the moves of ms, then the destination of
+   the last one,  of depot-to-depot chains `mss` that use every selected move exactly once.
+   get_routes keeps following a chain THROUGH the depot when another selected move leaves the depot at
+   exactly the arrival time, so a returned list may pass through node 0 (it is a `walk`, not always an
+   `sroute`); cutting the walks after every move that ends at node 0 (split_depot) gives the routes of
+   C05_sound.  The order of the returned routes is part of the model (compared with the
+   implementation) but not of this statement. *)
+Theorem C05_decode :
+  forall I x, Inv (ig I) -> NoDup (igrid I) -> pos_cc I -> (2 <= length (nodes (ig I)))%nat ->
+    length x = num_variables I -> binary x -> Ax I x = rhs I ->
+    exists mss : list (list var),
+      get_routes I x = Ok (map route_of mss) /\
+      Permutation (selected I x) (concat mss) /\ Forall walk mss /\
+      Forall sroute (flat_map split_depot mss) /\ concat (flat_map split_depot mss) = concat mss.
+Proof.
+  intros I x HI Hg Hpos HN Hl Hb HA.
+  destruct (decode_of_local I (Inv_wf _ HI) Hpos x HN Hl) as (mss & E & Hp & Hw).
+  - apply local_iff; auto.
+  - exists mss. repeat split; auto.
+    + apply Forall_forall. intros r Hr. apply in_flat_map in Hr. destruct Hr as (ms & Hms & Hr).
+      rewrite Forall_forall in Hw. pose proof (split_depot_walk ms (Hw ms Hms)) as Hs.
+      rewrite Forall_forall in Hs. apply Hs; exact Hr.
+    + apply concat_flat_map_split.
+Qed.
+Print Assumptions C05_decode.
+
+(* Without a customer the statement of C05_decode fails: for the depot-only instance with a depot
+   self-arc the all-zero vector is binary and feasible (A has no rows) and selects the empty route
+   set, but get_routes raises TypeError (np.lexsort of an empty key sequence) instead of returning [].
+   Replayed on the implementation by harness/props/c05.py (special instance 5). *)
+Definition depot_only : inst :=
+  mkInst (mkGraph [10]%nat [mkNode 10 0 0 PInf] [((0, 0)%nat, mkArc 10 10 0 1)]) [1; 0].
+Example C05_decode_without_customer_refuted :
+  Inv (ig depot_only) /\ NoDup (igrid depot_only) /\ pos_cc depot_only /\
+  length [0; 0; 0] = num_variables depot_only /\ binary [0; 0; 0] /\
+  Ax depot_only [0; 0; 0] = rhs depot_only /\
+  get_routes depot_only [0; 0; 0] = Err TypeError.
+Proof.
+  split.
+  { change (ig depot_only) with (run Base [OpAddNode 10 0 0 PInf; OpAddArc 10 10 0 1] empty_graph).
+    apply run_inv. exact Inv_empty. }
+  split; [repeat constructor; simpl; intuition discriminate|].
+  split.
+  { intros i j a H Hi Hj. simpl in H. destruct i as [|i]; [congruence|]. destruct j; simpl in H; discriminate. }
+  split; [vm_compute; reflexivity|].
+  split; [repeat constructor; auto|].
+  vm_compute. split; reflexivity.
+Qed.
+
+(* Positive customer-to-customer travel times are needed for C05_sound: with a zero-time cycle
+   1 -> 2 -> 1 at time 1 the vector selecting just these two moves satisfies A x = b, yet no selected
+   move leaves the depot (and get_routes returns a closed walk that never visits the depot). *)
+Definition cyc_inst : inst :=
+  mkInst (mkGraph [10; 11; 12]%nat [mkNode 10 0 0 PInf; mkNode 11 1 0 (Fin 2); mkNode 12 1 0 (Fin 2)]
+                  [((1, 2)%nat, mkArc 11 12 0 1); ((2, 1)%nat, mkArc 12 11 0 1)]) [1].
+Example C05_sound_needs_positive_travel :
+  vars cyc_inst = [(1%nat, 1, 2%nat, 1); (2%nat, 1, 1%nat, 1)] /\
+  Ax cyc_inst [1; 1] = rhs cyc_inst /\ get_routes cyc_inst [1; 1] = Ok [[(1%nat, 1); (2%nat, 1); (1%nat, 1)]].
+Proof. vm_compute. repeat split; reflexivity. Qed.
+
+(* get_routes merges two routes when one returns to the depot at the time the other leaves it:
+   0@0 -> 1@1 -> 0@2 and 0@2 -> 2@3 -> 0@4 are returned as one list. *)
+Definition merge_inst : inst :=
+  mkInst (mkGraph [10; 11; 12]%nat [mkNode 10 0 0 PInf; mkNode 11 1 1 (Fin 3); mkNode 12 1 1 (Fin 9)]
+                  [((0, 1)%nat, mkArc 10 11 1 5); ((1, 0)%nat, mkArc 11 10 1 7);
+                   ((0, 2)%nat, mkArc 10 12 1 1); ((2, 0)%nat, mkArc 12 10 1 1)]) [0; 1; 2; 3; 4].
+Definition merge_x : list Z :=
+  map (fun v => if existsb (var_eqb v) [(0%nat, 0, 1%nat, 1); (1%nat, 1, 0%nat, 2); (0%nat, 2, 2%nat, 3); (2%nat, 3, 0%nat, 4)]
+                then 1 else 0) (vars merge_inst).
+Example C05_decode_merges_routes_through_depot :
+  Ax merge_inst merge_x = rhs merge_inst /\
+  get_routes merge_inst merge_x = Ok [[(0%nat, 0); (1%nat, 1); (0%nat, 2); (2%nat, 3); (0%nat, 4)]].
+Proof. vm_compute. split; reflexivity. Qed.
+
+(* 6. completeness with respect to the VRPTW of the doc (section 2).  Reference semantics
+   (Arc_complete.v): for a customer sequence cs,  vrptw_route g cs = Some [(0,0); (c1,T1); ...; (cK,TK); (0,Te)]
+   iff every consecutive pair is an arc, T_0 = 0, T_{k+1} = max(a_{k+1}, T_k + t_{k,k+1}) and T_k <= b_k for
+   every k including the return to the depot;  route_cost g 0 (cs ++ [0]) is the summed arc cost.
+   A plan is a list of (cs, visits).  If every route of the plan is non-empty and valid, every visit time is
+   a grid point, the routes together contain every customer 1 .. #nodes-1 exactly once, and time 0 lies in
+   the depot window, then the indicator vector of the moves (i_k, T_k, i_{k+1}, T_{k+1}) is binary, has the
+   right length, satisfies A x = b, costs the summed route costs, and selects exactly those moves.
+   (Capacity is not part of the arc-based model, hence "VRPTW without capacity".) *)
+Theorem C05_complete :
+  forall I (plan : list (list nat * list nt)),
+    NoDup (igrid I) -> NoDup (map fst (arcs (ig I))) ->
+    Forall (fun p => fst p <> [] /\ vrptw_route (ig I) (fst p) = Some (snd p) /\
+                     (forall q, In q (snd p) -> In (snd q) (igrid I))) plan ->
+    Permutation (concat (map fst plan)) (seq 1 (length (nodes (ig I)) - 1)) ->
+    win_lo (ig I) 0 <= 0 /\ ext_le (Fin 0) (win_hi (ig I) 0) ->
+    let x := indicator I (flat_map (fun p => moves_of (snd p)) plan) in
+    binary x /\ length x = num_variables I /\ Ax I x = rhs I /\
+    obj_value I x = sumz (map (fun p => route_cost (ig I) 0 (fst p ++ [0%nat])) plan) /\
+    Permutation (selected I x) (flat_map (fun p => moves_of (snd p)) plan).
+Proof.
+  intros I plan Hg Hk Hp Hc Hd x. repeat split.
+  - apply plan_x_binary.
+  - apply plan_x_length.
+  - apply plan_feasible; assumption.
+  - apply plan_objective; assumption.
+  - apply plan_selected; assumption.
+Qed.
+Print Assumptions C05_complete.
+
+(* 7. projection (the converse half of the equivalence with the VRPTW): if the depot window starts at or
+   after 0, every route of C05_sound is, as the customer sequence  map dnode (removelast r),  a valid route of
+   the VRPTW with the same cost, and the VRPTW's earliest service times are no later than the times chosen
+   by the arc model.  Together with C05_sound (A x = b -> routes) and C05_complete (routes on the grid ->
+   A x = b, same cost) the sets {cost of a feasible x} and {cost of a VRPTW route plan whose times are on the
+   grid} coincide, hence so do feasibility and the optimal cost when the grid contains every attainable
+   service time. *)
+Theorem C05_project :
+  forall I r, sroute r -> Forall (valid_move I) r -> 0 <= win_lo (ig I) 0 ->
+    exists vs, vrptw_route (ig I) (map dnode (removelast r)) = Some ((0%nat, 0) :: vs) /\
+               route_cost (ig I) 0 (map dnode (removelast r) ++ [0%nat]) =
+               sumz (map (fun v => acost (arc_at (ig I) (onode v) (dnode v))) r) /\
+               Forall2 (fun q m => fst q = dnode m /\ snd q <= arr m) vs r.
+Proof. exact project_route. Qed.
+Print Assumptions C05_project.
+
 (* Non-vacuity: depot 0 (0, inf), customers 1 (1,3) and 2 (3,5); arcs 0->1 (1), 1->2 (2), 2->0 (0) and a
    depot self-arc; UNSORTED grid.  The vector selecting (0,0,1,1), (1,1,2,3), (2,3,0,3) is binary,
    satisfies A x = b, costs 1 + 1 + 1 and decodes to the single route 0@0 -> 1@1 -> 2@3 -> 0@3. *)
@@ -79,5 +239,28 @@ Proof.
   split; [vm_compute; reflexivity|].
   split; [unfold binary; vm_compute;
           repeat (apply Forall_cons; [first [left; reflexivity | right; reflexivity]|]); apply Forall_nil|].
+  vm_compute. repeat split; reflexivity.
+Qed.
+
+(* the hypotheses of C05_sound / C05_decode / C05_complete hold on this instance; the plan is the single
+   route 0 -> 1 -> 2 -> 0 with earliest times 0, 1, 3, 3, and its indicator vector is ex_x *)
+Example C05_example_hypotheses :
+  Inv (ig ex_inst) /\ pos_cc ex_inst /\ (2 <= length (nodes (ig ex_inst)))%nat /\
+  NoDup (map fst (arcs (ig ex_inst))) /\
+  vrptw_route (ig ex_inst) [1; 2]%nat = Some [(0%nat, 0); (1%nat, 1); (2%nat, 3); (0%nat, 3)] /\
+  indicator ex_inst (moves_of [(0%nat, 0); (1%nat, 1); (2%nat, 3); (0%nat, 3)]) = ex_x /\
+  route_cost (ig ex_inst) 0 [1; 2; 0]%nat = 3.
+Proof.
+  split.
+  { change (ig ex_inst) with (run Base [OpAddNode 10 0 0 PInf; OpAddNode 11 1 1 (Fin 3); OpAddNode 12 1 3 (Fin 5);
+                                        OpAddArc 10 11 1 1; OpAddArc 11 12 2 1; OpAddArc 12 10 0 1; OpAddArc 10 10 0 0]
+                                   empty_graph).
+    apply run_inv. exact Inv_empty. }
+  split.
+  { intros i j a H Hi Hj. simpl in H.
+    destruct i as [|[|[|i]]], j as [|[|[|j]]]; simpl in H; try discriminate; try congruence;
+      inversion H; subst; simpl; lia. }
+  split; [simpl; lia|].
+  split; [repeat constructor; simpl; intuition discriminate|].
   vm_compute. repeat split; reflexivity.
 Qed.
